@@ -8,7 +8,7 @@ Wrap-around is made visible by fault probes (base 0xFFFFFFF0 + offset 0x20): the
 address (0x10, holding a sentinel) was accessed.
 """
 import os, shutil
-from vlib import env, e2e, gen, wasm, diff
+from vlib import env, e2e, gen, wasm, diff, progs
 from vlib.wasm import *
 
 LEVEL = 'exploration'
@@ -244,7 +244,7 @@ def main(chk):
         outs = {}
         if st == 'ok':
             for tag, cc, cflags in builds:
-                outs[tag] = e2e.build_and_run(w2c2, b, plan, script, os.path.join(d, tag), cc=cc, cflags=cflags, cdefs=['-DWASM_THREADS_PTHREADS'], link=['-lpthread'], timeout=600)[:2]
+                outs[tag] = e2e.build_and_run(w2c2, b, plan, script, os.path.join(d, tag), cc=cc, cflags=cflags, cdefs=['-DWASM_THREADS_PTHREADS'], link=['-lpthread'], timeout=600, opts=progs.opts_for(k))[:2]
         shutil.rmtree(d, ignore_errors=True)
         return k, shape, b, script, cls, st, ref, outs, plan
 
